@@ -202,6 +202,25 @@ Proof.
   exists 0. unfold code. cbn [map]. apply tr_use, tr_ret, tr_end_top.
 Qed.
 
+(* HOOK CALLS ARE STEPS OF THE LOCK HOLDER (flag "hooks_atomic" of the supporting run).
+   The user's ClientHooks object is reached through the field hooks, which LockModel classifies as a
+   locked-use field: written once before the client is shared (configuration rule), and every read
+   of it / call through it is a CUse of the core language.  Hence, under the regenerated
+   obligation, by C14_well_locked_sound every BeforeWrite / AfterEachRead / BeforeParse call is an
+   EUse event made while the thread owns the mutex; by C14_mutual_exclusion the thread is then THE
+   holder; and by C14_one_at_a_time nobody else takes a step until it releases.  So the hook calls
+   of one request are never interleaved with those of another, and a hook object need not be
+   goroutine-safe.  (DispConc.run_observed attaches the hook calls to the holder's acquire, read and
+   release steps accordingly.) *)
+Example hooks_are_locked_use :
+  locked_use "Client.hooks" "Client.mu" = true /\ locked_use "SerialClient.hooks" "SerialClient.mu" = true /\
+  (* and the generated bodies of Do / do really call through them *)
+  existsb (fun f => any_list (fun s => match s with Use "Client.hooks" R => true | _ => false end) (fn_body f))
+          (p_funcs Skeletons.client) = true /\
+  existsb (fun f => any_list (fun s => match s with Use "SerialClient.hooks" R => true | _ => false end) (fn_body f))
+          (p_funcs Skeletons.serial_client) = true.
+Proof. vm_compute. repeat split. Qed.
+
 (* ------------------------------------------------------------------------------------------ *)
 (* (4) the regenerated obligations (gen/Skeletons.v is rewritten by the translator on each run) *)
 
@@ -268,6 +287,17 @@ Example C14_mini_return_locked :
   well_locked (mini [ {| fn_name := "Client.Close"; fn_kind := KFunc; fn_exported := true;
                          fn_body := [Lock "Client.mu"; Use "Client.conn" R; Branch [[Return]; []];
                                      Unlock "Client.mu"; Return] |} ]) = false.
+Proof. vm_compute. reflexivity. Qed.
+(* the hooks are called outside the critical section (lock taken only around the exchange helper):
+   hooks is a locked-use field, every call through it must be made by the lock holder *)
+Example C14_mini_hooks_outside_lock :
+  well_locked (mini [ {| fn_name := "Client.exchange"; fn_kind := KFunc; fn_exported := false;
+                         fn_body := [Lock "Client.mu"; DeferUnlock "Client.mu"; Use "Client.conn" R;
+                                     Call "Client.do"; Return] |};
+                      {| fn_name := "Client.Do"; fn_kind := KFunc; fn_exported := true;
+                         fn_body := [Call "Client.exchange"; Branch [[Return]; []];
+                                     Use "Client.hooks" R; Branch [[Use "Client.hooks" R]; []]; Return] |};
+                      mini_do ]) = false.
 Proof. vm_compute. reflexivity. Qed.
 (* an unrecognised construct fails the obligation *)
 Example C14_mini_unknown :
